@@ -76,6 +76,14 @@ def fix_handles(ops):
     return out
 
 
+def _ensure_vfail():
+    from beanquery import query_env
+    if 'vfail' not in query_env.query_compile.FUNCTIONS:
+        def vfail(x):
+            raise RuntimeError('vfail')
+        query_env.function([int], int, name='vfail')(vfail)
+
+
 def _run_impl_raw(ops):
     table = impl.make_table('t', [('x', int)], [(i,) for i in range(8)])
     conn = impl.connection({'t': table})
@@ -95,14 +103,15 @@ def _run_impl_raw(ops):
                 other.fetchone()
                 r = [0]
             elif k == 'execfail':
-                # parses and compiles, raises while the rows are evaluated (IN with an int right operand: the listed C04/C05
-                # finding `in-unchecked`); the unchanged cursor assigns its state only after execute_query returned
+                # parses and compiles, raises while the rows are evaluated (a harness function registered through the public
+                # decorator raises on its first call); the unchanged cursor assigns its state only after execute_query returned
+                _ensure_vfail()
                 try:
-                    curs.execute('SELECT x IN x AS x FROM #t')
+                    curs.execute('SELECT vfail(x) AS x FROM #t')
                     r = [7]
                 except (impl.beanquery.ParseError, impl.beanquery.CompilationError):
                     r = [8]
-                except Exception:  # noqa: BLE001
+                except RuntimeError:
                     r = [6]
             elif k == 'fetchone':
                 v = curs.fetchone()
